@@ -4,7 +4,12 @@ use crate::common::Property;
 pub mod c03;
 pub mod c04;
 pub mod c11;
+pub mod c13;
+pub mod c14;
+pub mod c15;
+pub mod c19;
+pub mod c20;
 
 pub fn all() -> Vec<Box<dyn Property>> {
-    vec![Box::new(c03::C03), Box::new(c04::C04), Box::new(c11::C11)]
+    vec![Box::new(c03::C03), Box::new(c04::C04), Box::new(c11::C11), Box::new(c13::C13), Box::new(c14::C14), Box::new(c15::C15), Box::new(c19::C19), Box::new(c20::C20)]
 }
